@@ -65,6 +65,12 @@ Example C10_ex_always_silent :
   r = RErr EIncomplete /\ w_now w' = 340000 /\ w_now w' <= Bt ((15 + 2) * 1000) /\ length (w_scripts w') = 5%nat.
 Proof. vm_compute. repeat split; try reflexivity. discriminate. Qed.
 
+(* "on connect": an attempt nobody answers ends exactly at its deadline as a failed attempt; no connection is opened *)
+Theorem C10_unanswered_connect_ends_at_the_deadline : forall cfg d w s rest,
+  w_scripts w = s :: rest -> cs_refused s = false -> cs_silent s = true ->
+  exists w', connect cfg d w = CErr 3 w' /\ w_now w' = d /\ w_conns w' = w_conns w /\ w_cur w' = w_cur w /\ w_scripts w' = rest.
+Proof. exact unanswered_connect_ends_at_the_deadline. Qed.
+
 (* "on connect": nobody answers the connection attempts at all (neither accepted nor refused) — the same 20 attempts, each ended
    by the attempt's own deadline, the same 340 s, and no connection was ever opened *)
 Example C10_ex_connect_never_answered :
@@ -138,3 +144,4 @@ Print Assumptions C10_every_call_returns_in_bounded_time.
 Print Assumptions C10_invalid_configuration_is_refused.
 Print Assumptions C10_accepted_configuration_can_be_sent.
 Print Assumptions C10_accepted_configuration_never_fails_to_encode.
+Print Assumptions C10_unanswered_connect_ends_at_the_deadline.
